@@ -1,9 +1,9 @@
-SPECIFICATION PSpec
+SPECIFICATION SSpec
 CONSTANTS
-    Threads = {1, 2}
-    MaxRounds = 1
+    Threads = {1, 2, 3}
+    MaxRounds = 3
     MaxChunks = 100
-    MaxPoolOps = 1
+    MaxPoolOps = 2
     CreateUnderLock = TRUE
     MayFail = TRUE
     MayForget = TRUE
